@@ -3798,11 +3798,16 @@ func c17r15(c *Ctx, r *Report) {
 func c17r16(c *Ctx, r *Report) {
 	l := c.L
 	r.rule("C17-R16", "F (alias of shared storage through a return value)", "P1",
-		"no function of package fzf returns, as a *tui.ColorTheme, the load of a package-level variable",
+		"no function of package fzf, and no function of package tui reachable from ParseOptions, returns, as a *tui.ColorTheme, the load of a package-level variable (round-8 mutant C17b8 made tui.NoColorTheme hand out one shared instance)",
 		"--color=light,... edits the shared light theme in place: a later --color=light does not start from the pristine theme")
 	n := 0
+	// of package tui: the theme constructors the option parser calls (the renderer's DefaultTheme hands its base theme to InitTheme, which only reads it)
+	fromOptions := map[*ssa.Function]bool{}
+	if po := l.Fn("fzf", "ParseOptions"); po != nil {
+		fromOptions = reachableFns(po)
+	}
 	for _, fn := range l.AllFuncs() {
-		if fn.Blocks == nil || fn.Pkg != l.pkg("fzf") || fn.Signature.Results().Len() == 0 {
+		if fn.Blocks == nil || (fn.Pkg != l.pkg("fzf") && !(fn.Pkg == l.pkg("tui") && fromOptions[fn])) || fn.Signature.Results().Len() == 0 {
 			continue
 		}
 		pt, ok := fn.Signature.Results().At(0).Type().(*types.Pointer)
@@ -3830,7 +3835,7 @@ func c17r16(c *Ctx, r *Report) {
 		})
 		r.check(shared == "", relName(fn)+":returns a private theme", fn.Pos(), fn, "every returned theme is a copy", "the shared theme "+shared+" itself can be returned and is then edited in place by the caller")
 	}
-	r.floor("functions of package fzf returning a *ColorTheme", n, 1)
+	r.floor("functions of packages fzf and tui returning a *ColorTheme", n, 3)
 }
 
 // c16r12..r14: three decisions around the listener.
@@ -4196,6 +4201,33 @@ func c12r11(c *Ctx, r *Report) {
 		q := func(x ssa.Value) bool { s, ok := constString(x); return ok && s == "'" }
 		r.check(len(leaves) >= 3 && q(leaves[0]) && q(leaves[len(leaves)-1]), fmt.Sprintf("%s:return #%d is a quoted word", relName(esq), n), ret.Pos(), esq,
 			"'...' on this path", "this return hands the argument back without quotes")
+		// what stands between the quotes has EVERY quote of the argument replaced (round-8 mutant C19c8 replaced the first one only)
+		if len(leaves) >= 3 {
+			all := true
+			for _, m := range leaves[1 : len(leaves)-1] {
+				if _, isConst := m.(*ssa.Const); isConst {
+					continue
+				}
+				call, ok := m.(*ssa.Call)
+				good := false
+				if ok {
+					if cal := call.Call.StaticCallee(); cal != nil && len(call.Call.Args) >= 3 {
+						if from, isq := constString(call.Call.Args[1]); isq && from == "'" {
+							switch relName(cal) {
+							case "strings.ReplaceAll":
+								good = true
+							case "strings.Replace":
+								k, isk := constIntVal(call.Call.Args[3])
+								good = isk && k < 0
+							}
+						}
+					}
+				}
+				all = all && good
+			}
+			r.check(all, fmt.Sprintf("%s:return #%d replaces every quote of the argument", relName(esq), n), ret.Pos(), esq,
+				"the argument only appears as strings.ReplaceAll(arg, \"'\", ..)", "the text between the quotes is not the argument with ALL of its quotes replaced: a later quote ends the word early and the rest is re-split by the shell")
+		}
 	})
 	r.floor("returns of escapeSingleQuote", n, 1)
 }
